@@ -712,7 +712,7 @@ def _record_build(sub):
 def drv_build(ctx: Ctx, sub: SubCheck):
     names = list(variants())
     parts = ctx.pick(2, 4)  # several independently seeded runs per variant: evens out the 16 workers
-    n = ctx.pick(400, 5000) // parts
+    n = ctx.pick(340, 5000) // parts
 
     def work(item, t: Tally):
         name, part = item
@@ -1128,7 +1128,7 @@ def oracle_decode(case):
 def drv_decode(ctx: Ctx, sub: SubCheck):
     names = list(decoders())
     parts = ctx.pick(2, 4)
-    n = ctx.pick(1100, 18000) // parts
+    n = ctx.pick(940, 18000) // parts
 
     def rec(c, t: Tally):
         out = _LAST.get("outcome", "?")
